@@ -11,6 +11,7 @@ import (
 	"strconv"
 	"strings"
 	"testing"
+	"time"
 
 	"github.com/AdguardTeam/golibs/errors"
 	"github.com/AdguardTeam/golibs/logutil/slogutil"
@@ -81,6 +82,10 @@ func c20SReadAll() c20Step   { return c20Step{kind: 3} }
 // record; at == -2: newer than every record; at <= -10: strictly between
 // records -at-10 and -at-9.
 func c20SSeek(at int) c20Step { return c20Step{kind: 1, k: at, tk: "scripted"} }
+
+// c20SSeekRec: the same targets through qLogReader.seekRecord (search.go):
+// seekTS, then one ReadNext stepping over the found record (round 8).
+func c20SSeekRec(at int) c20Step { return c20Step{kind: 4, k: at, tk: "scripted"} }
 
 // c20HistoryCase runs one history on one reader: the scripted steps if any,
 // else nOps random ones.
@@ -227,7 +232,7 @@ func c20HistoryCase(t *testing.T, out *vfOut, r *vfRand, dir, kind string, files
 	// the steps: scripted, or drawn
 	var steps []c20Step
 	for _, st := range script {
-		if st.kind == 1 {
+		if st.kind == 1 || st.kind == 4 {
 			switch at := st.k; {
 			case n == 0:
 				st.ts, st.tk = 1_700_000_000_000_000_000, "any"
@@ -272,7 +277,11 @@ func c20HistoryCase(t *testing.T, out *vfOut, r *vfRand, dir, kind string, files
 			default:
 				ts, tk = all[r.Intn(n)].ts, "present"
 			}
-			steps = append(steps, c20Step{kind: 1, ts: ts, tk: tk})
+			kd := 1
+			if r.Chance(1, 3) {
+				kd = 4
+			}
+			steps = append(steps, c20Step{kind: kd, ts: ts, tk: tk})
 		case choice == 12 && n > 0:
 			steps = append(steps, c20SReadAll())
 		default:
@@ -294,9 +303,21 @@ func c20HistoryCase(t *testing.T, out *vfOut, r *vfRand, dir, kind string, files
 			ops = append(ops, vfApp("C20.RSeekStart", vfZ(c), vfZ(p)))
 			hist = append(hist, "SeekStart")
 			positioned(n - 1)
-		case 1:
+		case 1, 4:
 			ts, tk := st.ts, st.tk
-			serr := rd.seekTS(ctx, ts)
+			isRec := st.kind == 4
+			opName, coqOp := "seekTS", "C20.RSeek"
+			var serr error
+			if isRec {
+				opName, coqOp = "seekRecord", "C20.RSeekRec"
+				cls["seek-record"] = true
+				if ts > time.Now().UnixNano() {
+					cls["seek-record-stamp-after-wall-clock"] = true
+				}
+				serr = rd.seekRecord(ctx, time.Unix(0, ts))
+			} else {
+				serr = rd.seekTS(ctx, ts)
+			}
 			code := int64(0)
 			switch {
 			case serr == nil:
@@ -306,12 +327,18 @@ func c20HistoryCase(t *testing.T, out *vfOut, r *vfRand, dir, kind string, files
 				code = 4
 			}
 			c, p := curPos()
-			ops = append(ops, vfApp("C20.RSeek", vfZ(ts), vfZ(code), vfZ(c), vfZ(p), vfBool(rd.seekFellBack)))
+			ops = append(ops, vfApp(coqOp, vfZ(ts), vfZ(code), vfZ(c), vfZ(p), vfBool(rd.seekFellBack)))
 			res, idx := c20SpecSeek(files, base, ts)
-			hist = append(hist, fmt.Sprintf("seekTS(%s %d)=%s", tk, ts, map[bool]string{true: "ok", false: "error"}[serr == nil]))
+			hist = append(hist, fmt.Sprintf("%s(%s %d)=%s", opName, tk, ts, map[bool]string{true: "ok", false: "error"}[serr == nil]))
 			if serr == nil {
 				// the twin follows every successful seek
-				if terr := tw.seekTS(ctx, ts); terr != nil {
+				var terr error
+				if isRec {
+					terr = tw.seekRecord(ctx, time.Unix(0, ts))
+				} else {
+					terr = tw.seekTS(ctx, ts)
+				}
+				if terr != nil {
 					mon.fail("twin-seek", "the seek succeeded on the reader under test and failed on its twin: %v", terr)
 				}
 			} else {
@@ -349,6 +376,11 @@ func c20HistoryCase(t *testing.T, out *vfOut, r *vfRand, dir, kind string, files
 				// a failed seek positions nothing: the run goes on
 			case len(files) == 0:
 				// no file: nil error, nothing to read
+			case res == 0 && isRec:
+				// seekRecord steps over the requested record: the next read returns
+				// the one just older (io.EOF behind the oldest), whatever the wall
+				// clock says about the stamps
+				positioned(idx - 1)
 			case res == 0:
 				positioned(idx)
 			case res == 2:
@@ -461,4 +493,38 @@ func c20GenFiles(r *vfRand, nf int, ts0 int64, maxLines int, emptyChance int) (f
 		files = append(files, f)
 	}
 	return files
+}
+
+// c20FutureDelta moves a stamp of 2023 to the year 2100: later than the wall
+// clock of any run of this harness (whole seconds, so that the line keeps its
+// length).
+const c20FutureDelta = int64(77*365+19) * 86400 * 1_000_000_000
+
+// c20ToFuture returns a copy of files (oldest first) in which the records
+// from record fromLine of file fromFile on carry stamps after the wall clock;
+// the lines keep their lengths, the stamps stay strictly increasing.
+func c20ToFuture(files [][]c20Line, fromFile, fromLine int) (out [][]c20Line) {
+	gi := 0
+	for i, f := range files {
+		var g []c20Line
+		for j, l := range f {
+			if i > fromFile || (i == fromFile && j >= fromLine) {
+				l = c20MakeLine(gi, l.ts+c20FutureDelta, len(l.text))
+			}
+			g = append(g, l)
+			gi++
+		}
+		out = append(out, g)
+	}
+	return out
+}
+
+// c20SeekRecScript: seekRecord to every record in turn (newest first), each
+// followed by two reads, then the absent classes.
+func c20SeekRecScript(n int) (sc []c20Step) {
+	for i := n - 1; i >= 0; i-- {
+		sc = append(sc, c20SSeekRec(i), c20SRead(2))
+	}
+	sc = append(sc, c20SSeekRec(-2), c20SRead(1), c20SSeekRec(-1), c20SRead(1), c20SSeekRec(-10-(n-2)), c20SRead(1), c20SSeekRec(n/2), c20SReadAll())
+	return sc
 }
